@@ -625,3 +625,11 @@ func normalizeChoices(r *rand.Rand, d *DNode, kids []*SNode) {
 		}
 	}
 }
+
+// FillList generates list c (with at least one entry) into d.
+func FillList(r *rand.Rand, s *Schema, d *DNode, c *SNode, o DataOpts) {
+	o.PKid = 1
+	for tries := 0; tries < 5 && d.Lists[c.Name] == nil; tries++ {
+		fill(r, s, d, []*SNode{c}, o)
+	}
+}
